@@ -7,6 +7,7 @@
    without zone or fraction) and rejects others with an error. …"
 -/
 import SamlVerif.Proofs.Duration
+import SamlVerif.Proofs.Time
 
 namespace SamlVerif.Duration
 
@@ -96,3 +97,65 @@ example : parse "P".toList = .err "empty" := by decide
 example : parse "P1Y2M3DT4H5M6.5S".toList = .ok 36993906500000000 := by decide
 
 end SamlVerif.Duration
+
+namespace SamlVerif.TimeM
+
+/-- the year of an instant given in nanoseconds since the epoch, after rounding to the millisecond -/
+def yearOf (ns : Int) : Int := (civilFromDays (roundMs ns / 86400000)).year
+
+/-- **C15 (instants)**: every instant whose rounded value lies in a year of at most four digits is
+    written as text that reads back as that instant rounded to the millisecond -/
+theorem C15_instant_roundtrip (ns : Int) (hy : 0 ≤ yearOf ns ∧ yearOf ns ≤ 9999) :
+    unmarshal (marshal ns) = some (roundMs ns) := unmarshal_marshal ns hy
+
+/-- rounding is to the nearest millisecond, halves up -/
+theorem C15_round_nearest (ns : Int) :
+    roundMs ns * 1000000 - 500000 ≤ ns ∧ ns < roundMs ns * 1000000 + 500000 ∧
+    (ns % 1000000 = 500000 → roundMs ns * 1000000 = ns + 500000) := by
+  have hdef : roundMs ns = if 2 * (ns % 1000000) < 1000000 then (ns - ns % 1000000) / 1000000
+      else (ns - ns % 1000000) / 1000000 + 1 := rfl
+  by_cases h : 2 * (ns % 1000000) < 1000000
+  · have e : roundMs ns = (ns - ns % 1000000) / 1000000 := by rw [hdef, if_pos h]
+    rw [e]
+    refine ⟨by omega, by omega, fun h5 => by omega⟩
+  · have e : roundMs ns = (ns - ns % 1000000) / 1000000 + 1 := by rw [hdef, if_neg h]
+    rw [e]
+    refine ⟨by omega, by omega, fun h5 => by omega⟩
+
+/-- rounding a whole number of milliseconds changes nothing (so a second round trip is the identity) -/
+theorem C15_round_idempotent (ns : Int) : roundMs (roundMs ns * 1000000) = roundMs ns := roundMs_exact _
+
+/-- the text is in UTC: it ends in `Z` -/
+theorem C15_written_in_utc (ms : Int) : (marshalMs ms).getLast? = some 'Z' := by
+  unfold marshalMs
+  simp only [List.getLast?_append, List.getLast?_singleton, Option.some_or]
+
+/-- the civil date written is a real one and determines the day (calendar is inverted exactly) -/
+theorem C15_calendar (z : Int) :
+    daysFromCivil (civilFromDays z) = z ∧ 1 ≤ (civilFromDays z).month ∧ (civilFromDays z).month ≤ 12 ∧
+    1 ≤ (civilFromDays z).day ∧ (civilFromDays z).day ≤ daysIn (civilFromDays z).year (civilFromDays z).month :=
+  calendar_roundtrip z
+
+/-- the one place in years 1..9999 where the full statement fails: the last half millisecond of 9999
+    rounds into year 10000, whose five-digit year is not read back (known finding) -/
+theorem C15_year_10000_counterexample :
+    yearOf (253402300799 * 1000000000 + 999500000) = 10000 ∧
+    unmarshal (marshal (253402300799 * 1000000000 + 999500000)) = none := by
+  constructor <;> decide +kernel
+
+/-! accepted and rejected lexical forms (tests of the reader on the documented forms; the reader is tied
+    to `UnmarshalText` by the correspondence on generated and mutated strings) -/
+example : unmarshal "2006-01-02T15:04:05Z".toList = some 1136214245000 := by decide +kernel
+example : unmarshal "2006-01-02T15:04:05.5+07:00".toList = some 1136189045500 := by decide +kernel
+example : unmarshal "2006-01-02T15:04:05".toList = some 1136214245000 := by decide +kernel
+example : unmarshal "2006-01-02T15:04:05.0004999Z".toList = some 1136214245000 := by decide +kernel
+example : unmarshal "2006-01-02T15:04:05.0005Z".toList = some 1136214245001 := by decide +kernel
+example : unmarshal "".toList = some zeroTimeMs := by decide
+example : unmarshal "2006-02-30T00:00:00Z".toList = none := by decide +kernel
+example : unmarshal "1900-02-29T00:00:00Z".toList = none := by decide +kernel
+example : unmarshal "2006-01-02T24:00:00Z".toList = none := by decide +kernel
+example : unmarshal "2006-01-02 15:04:05Z".toList = none := by decide +kernel
+example : unmarshal "2006-01-02T15:04:05+0700".toList = none := by decide +kernel
+example : 0 ≤ yearOf 1136214245000000000 ∧ yearOf 1136214245000000000 ≤ 9999 := by decide +kernel
+
+end SamlVerif.TimeM
